@@ -36,8 +36,8 @@ Module Names.
 Import Coq.Strings.String.
 (* OBLIGATION *)
 Theorem translated_functions :
-  M.translated = ["All"; "Any"; "Clear"; "Empty"; "Find"; "Get"; "Keys"; "Map_Map"; "New"; "Put"; "Remove"; "Select"; "Size"; "Values"]%string
-  /\ M.skipped = ["Each"; "String"]%string /\ M.not_selected = [].
+  M.translated = ["All"; "Any"; "Clear"; "Empty"; "Find"; "Get"; "Keys"; "Map_Map"; "MarshalJSON"; "New"; "Put"; "Remove"; "Select"; "Size"; "ToJSON"; "Values"]%string
+  /\ M.skipped = ["Each"; "FromJSON"; "String"; "UnmarshalJSON"]%string /\ M.not_selected = [].
 Proof. repeat split. Qed.
 Print Assumptions translated_functions.
 End Names.
